@@ -335,6 +335,11 @@ func genC01(rng *rand.Rand, n int) SrvCase {
 }
 
 func checkC01(r *Result, rng *rand.Rand, thorough bool) {
+	traces, doneTraces := collectTraces(200)
+	defer func() {
+		doneTraces()
+		compareSrv(r, "srv", *traces)
+	}()
 	ncases, n := 300, 30
 	if thorough {
 		ncases, n = 1500, 60
